@@ -609,7 +609,7 @@ fn main() {
     let mut rng = Rng::new(seed);
     let mut tot = Totals::default();
     let shards = 16usize;
-    let n_hist = if thorough { 160 } else { 32 };
+    let n_hist = if thorough { 80 } else { 32 };
     let header = "From CKB Require Import Indexer.Query.";
     let mut files: Vec<CaseFile> = (0..shards)
         .map(|i| {
